@@ -94,6 +94,19 @@ def fixed_depth_builder(ctx, crate):
     ctx.report(clause, "drain_buffer:sort-dedup-iff-unsorted", oks, "sort_unstable + dedup run only when self.sorted is false (%d sites)" % len(sd), at=db.span, kind="N")
 
 
+def option_views(e, lasts):
+    """the `Option` returned by `last()` and the same option seen through `copied()` / `cloned()`: `None` / `Some`
+    of one is `None` / `Some` of the others"""
+    out = {ev.ret for ev in lasts}
+    grew = True
+    while grew:
+        grew = False
+        for ev in e.events.values():
+            if ev.callee and strip_generics(ev.callee).split("::")[-1] in ("copied", "cloned") and ev.args and ev.args[0] in out and ev.ret not in out:
+                out.add(ev.ret); grew = True
+    return out
+
+
 def push_invariant(ctx, crate):
     """N: `sorted == true` means the buffer is STRICTLY increasing — drain_buffer skips sort + dedup on
     that flag, and buff_to_bmoc emits the buffer as is.  So every way through `push` that appends the
@@ -125,9 +138,7 @@ def push_invariant(ctx, crate):
         if fin == C('bool', 0): continue                      # flag false: drain_buffer will sort and dedup
         lasts = [ev for ev in e.events.values() if ev.callee and strip_generics(ev.callee).endswith("::last")]
         if not lasts: continue
-        disc = ('discr', lasts[0].ret)
-        if sub.get(disc) == C('isize', 0) or disc not in sub: 
-            if sub.get(disc) == C('isize', 0): continue       # empty buffer
+        if any(sub.get(('discr', o)) == C('isize', 0) for o in option_views(e, lasts)): continue       # empty buffer
         # the element compared with the value: any leaf of the forced comparisons that is not the value itself
         cmps = [t for t in sub if t[0] == 'op' and t[1] in ('eq', 'ne', 'lt', 'le', 'gt', 'ge') and value in (t[3], t[4])]
         others = {t[3] if t[4] == value else t[4] for t in cmps}
@@ -137,6 +148,10 @@ def push_invariant(ctx, crate):
         for lv, vv in ((1, 2), (2, 2), (3, 2)):
             if last is not None and not all(feval(t, {last: lv, value: vv}, e) == bool(sub[t][2]) for t in cmps): continue
             if lv >= vv:
+                # the flag may be stored as an expression (`sorted = sorted && last < value`): read it on this ordering
+                try: fv = feval(fin, {last: lv, value: vv, sorted_t: True}, e) if last is not None and isinstance(fin, tuple) and fin[0] != 'c' else None
+                except Exception: fv = None
+                if fv is False or fv == 0 and fv is not None and not isinstance(fv, float): continue
                 bad.append(("last %s value" % ("==" if lv == vv else ">"), {show(t)[:50]: bool(sub[t][2]) for t in cmps})); break
     # the dual: a way through push that does NOT append the value drops it — allowed only for a duplicate of
     # the last element of a NON-EMPTY buffer (forced `Some` outcome of `last()`, and tests that only the
@@ -149,7 +164,7 @@ def push_invariant(ctx, crate):
         if pushes: continue
         n_drop += 1
         lasts = [ev for ev in e.events.values() if ev.callee and strip_generics(ev.callee).endswith("::last")]
-        nonempty = any(sub.get(('discr', ev.ret)) == C('isize', 1) for ev in lasts)
+        nonempty = any(sub.get(('discr', o)) == C('isize', 1) for o in option_views(e, lasts))
         cmps = [t for t in sub if t[0] == 'op' and t[1] in ('eq', 'ne', 'lt', 'le', 'gt', 'ge') and value in (t[3], t[4])]
         others = {t[3] if t[4] == value else t[4] for t in cmps}
         only_eq = False
@@ -262,7 +277,15 @@ def pack_rule(ctx, crate):
             d0, h0 = sib[0][0], sib[0][1]
             ok = all(d == d0 and h == h0 for d, h, _ in sib) and parent[1] == h0 and parent[0] == ('op', 'sub', 'u8', d0, C('u8', 1))
         detail = "siblings probed: %s; parent written: %s" % ([(show(d), show(h), k) for d, h, k in sib], (show(parent[0]), show(parent[1])) if parent else None)
-    ctx.report(clause, "pack:merges-only-four-full-siblings", ok, detail, at=b.span, kind="N")
+    # the three probes may sit in the closure of an iterator adaptor (`.zip(1..).all(|..| ..)`), which this rule does
+    # not read: then neither this rule nor the look-ahead rule speaks
+    from mir import callee_name as _cn
+    adaptor = any((_cn(t["func"]) or "").split("::")[-1] in ("all", "any", "try_fold", "fold", "position") for _, t in b.calls())
+    probes_hidden = (not ok) and len(brv) < 4 and adaptor
+    if probes_hidden:
+        ctx.not_decided("pack: the sibling probes are in the closure of an iterator adaptor (%d build_raw_value calls visible)" % len(brv))
+    else:
+        ctx.report(clause, "pack:merges-only-four-full-siblings", ok, detail, at=b.span, kind="N")
     # the look-ahead bound: the three siblings are read at i, i+1, i+2, so the guard must be exactly
     # "i + 2 < n" — weaker reads out of bounds, stronger never merges a quadruple that ends the list
     sib_sites = [ev for ev in brv if ev.args[1][0] == 'op' and ev.args[1][1] == 'bitor']
@@ -282,7 +305,7 @@ def pack_rule(ctx, crate):
             if op == "le": k -= 1
             seen_bounds.append((show(base)[:30], k, show(c)[:30]))
             if k == 2: bound_ok = True
-    ctx.report(clause, "pack:sibling-lookahead-bound=i+2<n", bound_ok and not any(k > 2 for _, k, _ in seen_bounds),
+    if not probes_hidden: ctx.report(clause, "pack:sibling-lookahead-bound=i+2<n", bound_ok and not any(k > 2 for _, k, _ in seen_bounds),
                "the three following siblings are compared under `i + 2 < n`" if bound_ok and not any(k > 2 for _, k, _ in seen_bounds) else
                "look-ahead guard is not `i + 2 < n` (bounds seen: %s): a quadruple of full siblings that ends the list is never merged, or entries are read out of bounds" % seen_bounds, at=b.span, kind="N")
     # the skip loop keeps depth-0 cells, partial cells and non-first siblings unmerged
